@@ -279,10 +279,12 @@ pub fn random_cfg(rng: &mut Rng, name: &str) -> Value {
 
 #[derive(Clone, Debug)]
 pub struct OpTable {
-    /// (operator text, level, right-assoc, rule name)
+    /// binary operators: (operator text, level, right-assoc, rule name); always declared with prec.left/right(level)
     pub bin: Vec<(String, i64, bool, String)>,
-    /// prefix operators (text, level, rule name)
-    pub un: Vec<(String, i64, String)>,
+    /// prefix operators: (text, level, rule name, annotated); not annotated = no PREC wrapper at all (default precedence 0)
+    pub un: Vec<(String, i64, String, bool)>,
+    /// postfix operators: (text, level, rule name, annotated)
+    pub post: Vec<(String, i64, String, bool)>,
 }
 
 impl OpTable {
@@ -291,33 +293,40 @@ impl OpTable {
         for (t, l, r, n) in &self.bin {
             v.push(format!("b:{}:{}:{}:{}", tsv_harness::hex(t.as_bytes()), l, if *r { "R" } else { "L" }, n));
         }
-        for (t, l, n) in &self.un {
-            v.push(format!("u:{}:{}:{}", tsv_harness::hex(t.as_bytes()), l, n));
+        for (t, l, n, a) in &self.un {
+            v.push(format!("u:{}:{}:{}:{}", tsv_harness::hex(t.as_bytes()), l, n, if *a { "A" } else { "N" }));
+        }
+        for (t, l, n, a) in &self.post {
+            v.push(format!("p:{}:{}:{}:{}", tsv_harness::hex(t.as_bytes()), l, n, if *a { "A" } else { "N" }));
         }
         v.join(",")
     }
     pub fn decode(sx: &str) -> OpTable {
-        let mut t = OpTable { bin: vec![], un: vec![] };
+        let mut t = OpTable { bin: vec![], un: vec![], post: vec![] };
         for part in sx.split(',') {
             let f: Vec<&str> = part.split(':').collect();
             let text = String::from_utf8(tsv_harness::unhex(f[1])).unwrap();
-            if f[0] == "b" {
-                t.bin.push((text, f[2].parse().unwrap(), f[3] == "R", f[4].to_string()));
-            } else {
-                t.un.push((text, f[2].parse().unwrap(), f[3].to_string()));
+            match f[0] {
+                "b" => t.bin.push((text, f[2].parse().unwrap(), f[3] == "R", f[4].to_string())),
+                "u" => t.un.push((text, f[2].parse().unwrap(), f[3].to_string(), f.get(4).map(|x| *x != "N").unwrap_or(true))),
+                _ => t.post.push((text, f[2].parse().unwrap(), f[3].to_string(), f.get(4).map(|x| *x != "N").unwrap_or(true))),
             }
         }
         t
     }
 }
 
+/// Random operator table: binary operators with left/right associativity on integer levels
+/// (negative, zero and positive), prefix and postfix operators that are either annotated with an
+/// integer precedence or not annotated at all (default precedence).  Tables whose conflicts the
+/// declared precedences do not resolve are rejected by the generator and skipped by the caller.
 pub fn random_optable(rng: &mut Rng) -> OpTable {
     let ops = ["+", "-", "*", "/", "^", "<", "&", "|"];
     let nb = rng.range(1, 5);
     let nlev = rng.range(1, nb.min(4));
+    let base = rng.range(0, 6) as i64 - 4; // lowest binary level: -4 ..= 2
+    let step = rng.range(1, 2) as i64;
     let mut bin = Vec::new();
-    // binary levels are even numbers, unary levels odd: never equal (equal levels without
-    // associativity are an unresolved conflict, which the generator rejects)
     let mut level_assoc: Vec<bool> = Vec::new();
     for _ in 0..nlev {
         level_assoc.push(rng.chance(1, 3));
@@ -326,26 +335,61 @@ pub fn random_optable(rng: &mut Rng) -> OpTable {
         let lv = if i < nlev { i } else { rng.below(nlev) };
         // mostly one associativity per level, sometimes mixed within a level
         let right = if rng.chance(1, 6) { rng.chance(1, 2) } else { level_assoc[lv] };
-        bin.push((ops[i].to_string(), 2 * (lv as i64) + 2, right, format!("b{i}")));
+        bin.push((ops[i].to_string(), base + step * lv as i64, right, format!("b{i}")));
     }
-    let mut un = Vec::new();
+    let bin_levels: Vec<i64> = bin.iter().map(|b| b.1).collect();
+    // a level for a prefix/postfix operator: anywhere around the binary levels; prefer one that no
+    // binary operator uses (an equal level without associativity is an unresolved conflict)
+    let mut pick_level = |rng: &mut Rng, avoid: &[i64]| -> i64 {
+        for _ in 0..6 {
+            let l = base - 1 + rng.below((step as usize) * nlev + 3) as i64;
+            if !avoid.contains(&l) {
+                return l;
+            }
+        }
+        base - 2
+    };
+    let mut un: Vec<(String, i64, String, bool)> = Vec::new();
+    let mut used: Vec<i64> = bin_levels.clone();
     let nu = rng.below(3);
     let uops = ["!", "~"];
     for i in 0..nu {
-        let lv = 2 * (rng.below(nlev + 1) as i64) + 1;
-        un.push((uops[i].to_string(), lv, format!("u{i}")));
+        if rng.chance(1, 3) && !used.contains(&0) {
+            un.push((uops[i].to_string(), 0, format!("u{i}"), false));
+            used.push(0);
+        } else {
+            let lv = pick_level(rng, &used);
+            used.push(lv);
+            un.push((uops[i].to_string(), lv, format!("u{i}"), true));
+        }
     }
-    OpTable { bin, un }
+    let mut post: Vec<(String, i64, String, bool)> = Vec::new();
+    let np = rng.below(3);
+    let pops = ["?", "++"];
+    for i in 0..np {
+        if rng.chance(1, 2) {
+            // un-annotated postfix operator (like a call): default precedence
+            post.push((pops[i].to_string(), 0, format!("p{i}"), false));
+        } else {
+            let avoid: Vec<i64> = un.iter().map(|u| u.1).collect();
+            let lv = pick_level(rng, &avoid);
+            post.push((pops[i].to_string(), lv, format!("p{i}"), true));
+        }
+    }
+    OpTable { bin, un, post }
 }
 
-/// The tree-sitter grammar of an operator table (mirrored by `TsVerif.C03.opGrammar` in Lean).
+/// The tree-sitter grammar of an operator table (mirrored by `TsVerif.C03.opGrammarRules` in Lean).
 pub fn op_grammar(name: &str, t: &OpTable) -> Value {
     let mut alts = vec![sym("num"), sym("paren")];
     let mut rules: Vec<(String, Value)> = Vec::new();
     for (_, _, _, n) in &t.bin {
         alts.push(sym(n));
     }
-    for (_, _, n) in &t.un {
+    for (_, _, n, _) in &t.un {
+        alts.push(sym(n));
+    }
+    for (_, _, n, _) in &t.post {
         alts.push(sym(n));
     }
     rules.push(("program".into(), sym("_e")));
@@ -353,8 +397,13 @@ pub fn op_grammar(name: &str, t: &OpTable) -> Value {
     for (text, lv, right, n) in &t.bin {
         rules.push((n.clone(), prec(if *right { "PREC_RIGHT" } else { "PREC_LEFT" }, *lv, seq(vec![sym("_e"), s(text), sym("_e")]))));
     }
-    for (text, lv, n) in &t.un {
-        rules.push((n.clone(), prec("PREC", *lv, seq(vec![s(text), sym("_e")]))));
+    for (text, lv, n, annotated) in &t.un {
+        let body = seq(vec![s(text), sym("_e")]);
+        rules.push((n.clone(), if *annotated { prec("PREC", *lv, body) } else { body }));
+    }
+    for (text, lv, n, annotated) in &t.post {
+        let body = seq(vec![sym("_e"), s(text)]);
+        rules.push((n.clone(), if *annotated { prec("PREC", *lv, body) } else { body }));
     }
     rules.push(("paren".into(), seq(vec![s("("), sym("_e"), s(")")])));
     rules.push(("num".into(), pattern("[0-9]+")));
@@ -419,4 +468,154 @@ pub fn glr_grammars() -> Vec<(String, Value)> {
         ),
     ));
     v
+}
+
+/// A "rich" statement/expression grammar for the determinism and merge-equivalence runs of C15:
+/// every table of the generated parser whose order could come from a map is made non-trivial —
+/// several different aliases per non-terminal and per token, many fields, supertypes, a word token
+/// with keywords, named and integer precedences, hidden/inlined rules, token and non-terminal
+/// extras, external tokens (with a stub scanner that never matches).  Each statement form starts
+/// with its own keyword, so the grammars are accepted by the generator by construction.
+/// Returns (grammar json, scanner.c if the grammar has externals).
+pub fn random_rich_grammar(rng: &mut Rng, name: &str) -> (Value, Option<String>) {
+    let alias_pool = ["binding", "target", "label", "scope", "suite", "body_block", "callee", "operand", "item", "entry", "slot", "ref"];
+    let field_pool = ["name", "value", "cond", "then", "else", "body", "fn", "args", "left", "right", "op", "init", "step", "key"];
+    let kw_pool = ["let", "var", "const", "for", "while", "return", "yield", "with", "case", "goto", "emit", "bind"];
+    let mut rules: Vec<(String, Value)> = Vec::new();
+    let n_ext = rng.below(4);
+    let externals: Vec<String> = (0..n_ext).map(|i| format!("_ext{i}")).collect();
+    let use_word = rng.chance(2, 3);
+    let pick = |rng: &mut Rng, pool: &[&str]| -> String { pool[rng.below(pool.len())].to_string() };
+
+    // expressions
+    let bin_ops = ["+", "-", "*", "/", "<", "==", "&&", "||"];
+    let nb = rng.range(2, 6);
+    let named_prec = rng.chance(1, 2);
+    let prec_names = ["p_or", "p_and", "p_cmp", "p_add", "p_mul", "p_neg", "p_top"];
+    let mut expr_alts = vec![sym("num"), sym("id"), sym("paren"), sym("call")];
+    for i in 0..nb {
+        let rname = format!("bin{i}");
+        let lv = rng.below(5);
+        let body = seq(vec![
+            field("left", sym("_expression")),
+            field("op", if rng.chance(1, 3) { alias(s(bin_ops[i]), &pick(rng, &alias_pool), rng.chance(1, 2)) } else { s(bin_ops[i]) }),
+            field("right", sym("_expression")),
+        ]);
+        let kind = if rng.chance(1, 4) { "PREC_RIGHT" } else { "PREC_LEFT" };
+        let v = if named_prec {
+            json!({"type": kind, "value": prec_names[lv], "content": body})
+        } else {
+            json!({"type": kind, "value": (lv as i64) - 1, "content": body})
+        };
+        rules.push((rname.clone(), v));
+        expr_alts.push(sym(&rname));
+    }
+    if rng.chance(1, 2) {
+        rules.push(("neg".into(), if named_prec { json!({"type":"PREC","value":"p_neg","content": seq(vec![s("-"), field("operand", sym("_expression"))])}) } else { prec("PREC", 6, seq(vec![s("-"), field("operand", sym("_expression"))])) }));
+        expr_alts.push(sym("neg"));
+    }
+    if rng.chance(1, 2) {
+        rules.push(("str".into(), pattern("\"[a-z]*\"")));
+        expr_alts.push(sym("str"));
+    }
+    let call_prec = |v: Value| -> Value { if named_prec { json!({"type":"PREC","value":"p_top","content": v}) } else { prec("PREC", 8, v) } };
+    rules.push((
+        "call".into(),
+        call_prec(seq(vec![
+            field("fn", if rng.chance(1, 2) { alias(sym("_expression"), "callee", true) } else { sym("_expression") }),
+            s("("),
+            opt(field("args", sym("args"))),
+            s(")"),
+        ])),
+    ));
+    rules.push(("args".into(), seq(vec![sym("_expression"), rep(seq(vec![s(","), sym("_expression")]))])));
+    rules.push(("paren".into(), seq(vec![s("("), sym("_expression"), s(")")])));
+
+    // statements: each starts with its own keyword
+    let mut stmt_alts = vec![sym("block"), sym("expr_stmt"), sym("if_stmt")];
+    let n_stmt = rng.range(3, 8);
+    let mut kws: Vec<&str> = kw_pool.to_vec();
+    for i in 0..n_stmt {
+        let kw = kws.remove(rng.below(kws.len()));
+        let rname = format!("{kw}_stmt");
+        let mut ms = vec![s(kw)];
+        if !externals.is_empty() && rng.chance(1, 3) {
+            ms.push(opt(sym(&externals[rng.below(externals.len())])));
+        }
+        let parts = rng.range(1, 4);
+        for j in 0..parts {
+            let base = match rng.below(6) {
+                0 => sym("id"),
+                1 => sym("num"),
+                2 => sym("_expression"),
+                3 => sym("block"),
+                4 => sym("args"),
+                _ => sym("_name"),
+            };
+            let mut e = base;
+            // different aliases for the same symbol in different statements
+            if rng.chance(1, 2) {
+                e = alias(e, &pick(cx_rng(rng), &alias_pool), rng.chance(2, 3));
+            }
+            if rng.chance(2, 3) {
+                e = field(&pick(cx_rng(rng), &field_pool), e);
+            }
+            if j > 0 && j + 1 == parts && rng.chance(1, 3) {
+                e = opt(e);
+            }
+            ms.push(e);
+            if j + 1 < parts {
+                ms.push(s(["to", "=", ":", "=>"][rng.below(4)]));
+            }
+        }
+        ms.push(s(";"));
+        rules.push((rname.clone(), seq(ms)));
+        stmt_alts.push(sym(&rname));
+        let _ = i;
+    }
+    rules.push(("block".into(), seq(vec![s("{"), rep(sym("_statement")), s("}")])));
+    rules.push(("expr_stmt".into(), seq(vec![sym("_expression"), s(";")])));
+    rules.push((
+        "if_stmt".into(),
+        prec("PREC_RIGHT", 0, seq(vec![
+            s("if"),
+            s("("),
+            field("cond", sym("_expression")),
+            s(")"),
+            field("then", sym("_statement")),
+            opt(seq(vec![s("else"), field("else", sym("_statement"))])),
+        ])),
+    ));
+    rules.push(("_name".into(), choice(vec![sym("id"), alias(sym("num"), "index", true)])));
+    rules.push(("num".into(), pattern("[0-9]+")));
+    rules.push(("id".into(), pattern("[a-z_]+")));
+    rules.push(("comment".into(), pattern("#[^\\n]*")));
+    let mut all: Vec<(String, Value)> = vec![
+        ("program".into(), rep(sym("_statement"))),
+        ("_statement".into(), choice(stmt_alts)),
+        ("_expression".into(), choice(expr_alts)),
+    ];
+    all.extend(rules);
+    let mut g = grammar(name, all, vec![pattern("\\s"), sym("comment")], vec!["_name".to_string()], vec![]);
+    g["supertypes"] = json!(["_statement", "_expression"]);
+    if use_word {
+        g["word"] = json!("id");
+    }
+    if named_prec {
+        g["precedences"] = json!([prec_names.iter().rev().map(|p| json!({"type":"STRING","value":p})).collect::<Vec<_>>()]);
+    }
+    let scanner = if externals.is_empty() {
+        None
+    } else {
+        g["externals"] = Value::Array(externals.iter().map(|e| sym(e)).collect());
+        Some(format!(
+            "#include \"tree_sitter/parser.h\"\nvoid *tree_sitter_{n}_external_scanner_create(void) {{ return 0; }}\nvoid tree_sitter_{n}_external_scanner_destroy(void *p) {{ (void)p; }}\nunsigned tree_sitter_{n}_external_scanner_serialize(void *p, char *b) {{ (void)p; (void)b; return 0; }}\nvoid tree_sitter_{n}_external_scanner_deserialize(void *p, const char *b, unsigned n) {{ (void)p; (void)b; (void)n; }}\nbool tree_sitter_{n}_external_scanner_scan(void *p, TSLexer *l, const bool *v) {{ (void)p; (void)l; (void)v; return false; }}\n",
+            n = name
+        ))
+    };
+    (g, scanner)
+}
+
+fn cx_rng(rng: &mut Rng) -> &mut Rng {
+    rng
 }
